@@ -11,6 +11,7 @@ import TjdModel.Autojac.Heap
 import TjdModel.Autojac.Leaves
 import TjdModel.Autojac.Liveness
 import TjdModel.Agg.Others
+import TjdModel.Agg.Simplex
 namespace Tjd.Driver
 open Tjd SExp
 
@@ -414,7 +415,7 @@ def handle (req : SExp) : Option SExp := do
     let r := mgdaWeights (gram J) m (1 / (m : Rat)) (← q "eps") (← (← req.field1? "iters").nat?)
     pure (optVecMargin (some r) J)
   | "pcgrad" =>
-    let perms ← (← req.field? "perms").mapM natList?
+    let perms ← (← (← req.field1? "perms").list?).mapM natList?
     pure (optVecMargin (some (pcgradWeights (gram J) perms)) J)
   | "graddrop" => pure (optVec (some (graddrop J (← v "leak") (← v "U") (ncols J))))
   | "trimmed" => pure (optVec (some (trimmedMean (← (← req.field1? "b").nat?) (ncols J) J)))
@@ -439,6 +440,14 @@ def handle (req : SExp) : Option SExp := do
       | none => list [atom "none"]
       | some w => list [atom "ok", ofRats w, ofRats (combine (ncols J) J w)])
   | "matvec" => pure (list [atom "ok", ofRats (matVec J (← v "x"))])
+  | "minnorm" => pure (match minNorm (gram J) with
+      | none => list [atom "none"]
+      | some (a, val) => list [atom "ok", ofRats a, ofRat val])
+  | "nonconflict" =>
+    -- slack of the Lean predicate `NonConflictUpTo J x allow`: (J x)_i + allow_i, must be ≥ 0
+    let x ← v "x"
+    let allow ← v "allow"
+    pure (list [atom "ok", ofRats (List.zipWith (· + ·) (matVec J x) allow)])
   | "gram" => pure (list [atom "ok", ofRatMat (gram J)])
   | _ => none
 
